@@ -439,6 +439,10 @@ func c07R3(p *engine.Prog, r *engine.Report) {
 		}
 	}
 	r.Floor("C07-R6", 3, "Signature, Upgrade, TurnOffline")
+	// ---------------- R7: quorum inputs
+	sameCommitteePopulationRule(p, r, "C07-R7")
+	deletedArmCompleteRule(p, r, "C07-R7")
+	r.Floor("C07-R7", 4, "population + containers")
 }
 
 func c07R4(p *engine.Prog, r *engine.Report) {
